@@ -32,6 +32,15 @@ C["C17"] = ("Theorems C17_partial_*: for ANY schedule over a pool of engine prog
 C["C18"] = ("Theorems C18_*: dispatch key = name with '-'->'_' and ASCII lower-casing; keys coincide iff names are equal up to case; the handler registered under the key is invoked with exactly the node, otherwise None, never an error; node equality is structural (node_eqb a b = true <-> a = b). Tie: all bundled rule names + random names in random case with random handler subsets; random tree pairs.",
             TECH + " (functional model + reflection lemma) + differential correspondence", "DESIGN.md 4 C18")
 
+C["C04"] = ("PARTIAL PROOF. Theorems C04_partial_*: for every tree on which the visitor model is defined and every registry, the visitor is 'compile after ast_of' (same parser objects, rule objects and creation order), for expressions, rules and rulelists; layout nodes never reach the result; numbers of any length, dotted series, ranges, the five repeat forms, the char-val case flag and <rulename>/prose decode as RFC 5234 section 3 says. Not proved: that every derivation tree of a text has the abstract syntax the independent spec reader returns (unambiguity modulo layout). Tie: three-way differential on generated syntax x random layout x every loading route (implementation / spec reader + registry model / engine on the translated meta-grammar + visitor model), and all 26 bundled classes: real import vs loader model on the translated texts.",
+            TECH + " (visitor model = compile o abstraction; layout independence) + three-way differential correspondence + translation of bundled texts", "DESIGN.md 4 C04")
+C["C05"] = ("Theorem C05: for each of the 24 meta rules and 16 core rules, every hash-order oracle, string over N and offset, the engine model on the tables TRANSLATED from parser.py on every run lists exactly the end offsets that the grammar read from the RFC 5234 section 4 / RFC 7405 / B.1 text defines. Obligations re-checked by the kernel on every run: wf/closed/plain certificate of the translated tables (verified checkers) and language equivalence by a verified simulation checker (lang_eq_sound). Tie: translator for the tables; end sets of ABNFGrammarRule(X).lparse vs the model on the translated tables and vs the model on the RFC-text grammar, exhaustive short strings + derived sentences + mutants.",
+            TECH + " (C01 instantiated on generated tables + verified language-equivalence checker, closed by vm_compute) + translator + differential correspondence", "DESIGN.md 4 C05")
+C["C06"] = ("Theorems C06_*: over the core table translated from parser.py: each of the 14 single-character rules matches exactly one character and exactly the B.1 code points, for every natural number c and every string/offset (verified character-class computation + interval equality), the engine accepts [c] iff c is listed; CRLF matches exactly CR LF; every core rule (LWSP included) has the language of its B.1 text; a class without its own rule resolves to the core object. Tie: the real rules from the base class and a fresh subclass on all 1 114 112 code points (thorough) / boundaries+0..0x2FF+random (quick), CRLF/LWSP on all short strings.",
+            TECH + " (verified charclass/interval checker over generated tables, closed by vm_compute) + translator + exhaustive code-point sweep", "DESIGN.md 4 C06")
+C["C10"] = ("PARTIAL PROOF. Theorems C10_*: lookup is case-insensitive and idempotent; a class resolves a name to its own rule or the core rule, never another class's; defining/extending/redefining a rule in class c leaves every object of every other class and every existing definition object untouched PROVIDED the name does not resolve to a base-class object (C10_partial_isolated); the unrestricted statement is refuted in the model (C10_refuted, witness DIGIT), which replays on the implementation: two known findings (core-name shadowing; import by sharing). Tie: fresh-interpreter histories with registry snapshots and probe parses of the other class, the core rules and the ABNF reader, classified by evidence; whole final registry vs registry model.",
+            TECH + " (registry model invariants; refutation witness by vm_compute) + fresh-process history correspondence", "DESIGN.md 4 C10")
+
 NA = {
  "C04": "check under construction in this session (visitor model + spec reader + translation validation of the 26 bundled texts); not claimed yet",
  "C05": "check under construction (generated meta table vs RFC grammar by verified language-equivalence checker); not claimed yet",
